@@ -16,13 +16,28 @@ CONST_VERSIONS = {
 SYSTEM_CHILD_ID = 255
 
 
+def version_at_least(version, minimum):
+    """Return True if version is not below minimum.
+
+    AwesomeVersion does not order versions with a different number of
+    sections consistently, eg '2.0.0' >= '2.0' is False. Compare the numeric
+    sections instead and treat a missing section as zero.
+    """
+    version = AwesomeVersion(version)
+    minimum = AwesomeVersion(minimum)
+    sections = max(version.sections, minimum.sections)
+    return [version.section(idx) for idx in range(sections)] >= [
+        minimum.section(idx) for idx in range(sections)
+    ]
+
+
 def get_const(protocol_version):
     """Return the const module for the protocol_version."""
     path = next(
         (
             CONST_VERSIONS[const_version]
             for const_version in sorted(CONST_VERSIONS, reverse=True)
-            if AwesomeVersion(protocol_version) >= AwesomeVersion(const_version)
+            if version_at_least(protocol_version, const_version)
         ),
         "mysensors.const_14",
     )
